@@ -201,7 +201,10 @@ impl EncodingVersion for EncodingVersion1 {
         deserializer: &mut XTypesDeserializer<'a, E, Self>,
         alignment: usize,
     ) -> XTypesResult<()> {
-        deserializer.reader.seek_padding(alignment)
+        // MAXALIGN of version 1 encoding is 8 (same as the serializer)
+        deserializer
+            .reader
+            .seek_padding(core::cmp::min(alignment, 8))
     }
 
     fn seek_to_pid<'a, E: EndiannessRead>(
